@@ -420,26 +420,48 @@ func restart(id int, rng *rand.Rand) O {
 // captain (as a host re-applying persisted state would); pending timers must still fire once.
 func writeback(id int, rng *rand.Rand) O {
 	h := newHarness(false)
-	n := 1 + rng.Intn(2)
+	n := 1 + rng.Intn(3)
+	variant := rng.Intn(3)
+	// A state that is written back re-creates the timers it lists: it is only written back when it cannot be stale (no
+	// timer due soon).  The reset (no state given) keeps the live timers, whatever they are: it is also done while
+	// timers become due, when their goroutines use the map that the write-back fills.
 	for i := 0; i < n; i++ {
-		h.request("add", "t"+strconv.Itoa(i+1), true)
+		h.request("add", "t"+strconv.Itoa(i+1), variant == 0)
+	}
+	began := time.Now()
+	if variant == 0 {
+		time.Sleep(shortDelay - time.Duration(4+rng.Intn(8))*time.Millisecond)
 	}
 	h.mu.Lock()
-	if m, have := h.shadow[sio.TimersMachine]; have && m.State != nil {
+	var upd interface{}
+	switch m, have := h.shadow[sio.TimersMachine]; {
+	case variant == 0:
+		// the "reset" of SetMachine's documentation: no state given, the timers are kept
+		upd = map[string]interface{}{}
+	case have && m.State != nil:
 		js, _ := json.Marshal(m.State)
 		var st interface{}
 		json.Unmarshal(js, &st)
+		upd = map[string]interface{}{"state": st}
+	}
+	for upd != nil {
 		h.rec.add(O{"ev": "hook", "point": "writeback", "u": 0})
-		r, err := h.c.ProcessMsg(h.ctx, map[string]interface{}{"to": "captain", "update": map[string]interface{}{sio.TimersMachine: map[string]interface{}{"state": st}}})
+		r, err := h.c.ProcessMsg(h.ctx, map[string]interface{}{"to": "captain", "update": map[string]interface{}{sio.TimersMachine: upd}})
 		if err == nil {
 			h.fold(r)
 		}
+		// the reset is repeated across the due time of the timers
+		if variant != 0 || time.Since(began) > shortDelay+12*time.Millisecond {
+			break
+		}
+		h.mu.Unlock()
+		h.mu.Lock()
 	}
 	h.mu.Unlock()
 	if rng.Intn(2) == 0 {
 		h.request("rem", "t1", true)
 	}
-	return h.finish(id, "timer-writeback", O{"n": n}, true)
+	return h.finish(id, "timer-writeback", O{"n": n, "variant": variant}, true)
 }
 
 func main() {
